@@ -511,7 +511,17 @@ def tree_fingerprint():
 def run_shared_stage(st, pid, tier, seed):
     """Run (or reuse) a cross-property harness stage; return (lines for pid, stats)."""
     name = st["name"]
-    key = "%s-%s-%s-%s" % (name, tree_fingerprint(), tier, seed)
+    hh = hashlib.sha1()
+    for root in (os.path.join(VERIF, "harness"), os.path.join(VERIF, "corpus", name), os.path.join(VERIF, "props", "_shared.py")):
+        paths = [root] if os.path.isfile(root) else sorted(
+            os.path.join(dp, f) for dp, _dn, fs in os.walk(root) for f in fs if f.endswith((".go", ".txt", ".py")))
+        for fp in paths:
+            try:
+                hh.update(fp.encode())
+                hh.update(open(fp, "rb").read())
+            except OSError:
+                pass
+    key = "%s-%s-%s-%s-%s" % (name, tree_fingerprint(), hh.hexdigest()[:10], tier, seed)
     cdir = os.path.join(SCRATCH, "shared", key)
     outf = os.path.join(cdir, "out.txt")
     statf = os.path.join(cdir, "stats.json")
